@@ -314,7 +314,14 @@ func (e *Exec) callEffects(ef *effects, cc *ssa.CallCommon, depth int) {
 	if o := callee.Origin(); o != nil {
 		name = o.String()
 	}
-	if mods, ok := extModelMods[name]; ok {
+	if fn, ok := extModelModsFn[name]; ok {
+		for f, sg := range fn(e, cc) {
+			ef.addFam(f, sg, false)
+		}
+		argCells()
+		return
+	}
+	if mods, ok := extModelMods[name]; ok && mods != nil {
 		for f, sg := range mods {
 			ef.addFam(f, sg, false)
 		}
@@ -361,6 +368,9 @@ func (e *Exec) callEffects(ef *effects, cc *ssa.CallCommon, depth int) {
 }
 
 var extModelMods = map[string]map[string]famSig{}
+
+// effects that depend on the call's arguments (e.g. the memdb table)
+var extModelModsFn = map[string]func(e *Exec, cc *ssa.CallCommon) map[string]famSig{}
 
 // ---- loop head ----
 
@@ -669,8 +679,8 @@ func (e *Exec) frameObligations(s *State) {
 	}
 	entryAlloc := e.cur(e.entry, "$alloc", []string{"Ref"}, "Bool")
 	for _, fam := range sortedKeys(s.ver) {
-		if fam == "$alloc" || strings.HasPrefix(fam, "$unbox_") {
-			continue
+		if fam == "$alloc" || strings.HasPrefix(fam, "$unbox_") || strings.HasPrefix(fam, "$txn.") || strings.HasPrefix(fam, "$it.") {
+			continue // allocation state, immutable boxes, transaction-local and iterator-local ghost state
 		}
 		if s.ver[fam] == e.entry.ver[fam] {
 			continue
@@ -760,6 +770,11 @@ func (w *World) verifyFunc(con *Contract) (fr *FuncResult) {
 			e.entryVars[con.Params[i]] = TV{v, p.Type()}
 		}
 		e.entryVars[p.Name()] = TV{v, p.Type()}
+	}
+	for alias, j := range con.ParamAliases {
+		if j < len(f.Params) {
+			e.entryVars[alias] = TV{s.regs[f.Params[j]], f.Params[j].Type()}
+		}
 	}
 	for _, fv := range f.FreeVars {
 		s.regs[fv] = e.symbolic(s, fv.Type(), fv.Name())
